@@ -114,7 +114,7 @@ CLAIMS = {
          "structured abstract node: a forced branch (one child = false) is taken without consulting the choice, otherwise the choice "
          "/ the literal's polarity decides exactly once, the literal-set cursor advances past skipped literals; pick_cube's "
          "level->variable conversions carry the declared units; pick_cube_edge writes the cube entry of level_to_var(level) with the "
-         "branch taken; the count cache that weights pick_cube_uniform is read through sat_count_edge only. Does not decide that the "
+         "branch taken; the count cache that weights pick_cube_uniform is read through sat_count_edge only. The ZBDD pick_cube_edge / pick_cube_dd_edge steps are interpreted likewise (don't care, forced, chosen; zero-suppressed result shape). Does not decide that the "
          "cube is an implicant, nor uniformity.",
          "abstract interpretation of HIR + dimension (unit) analysis", "3.3, 3.10, 4 C13"),
  "C14": ("E-LIN + E-OOM + E-FREELIST(.count,.term) + E-EVENT.gc-order + E-DBG: E-LIN restricted to error exits: on every `?`/Err path of the rules crates, oxidd-dump, oxidd-reorder, the managers "
